@@ -182,6 +182,9 @@ class RunStateBinding(Binding):
                 return FLAGS[expr.attr]
             if expr.attr == "_prev_state" and self.is_engine(expr.value, f):
                 return "prev"
+        if isinstance(expr, ast.Call) and call_attr(expr) == "has_error_state" and isinstance(expr.func, ast.Attribute) \
+                and self.is_engine(expr.func.value, f) and "err" in self.track:
+            return "err"        # has_error_state() <=> _last_error is not None, which the ghost follows
         if isinstance(expr, ast.Call) and call_attr(expr) == "get_value" and isinstance(expr.func, ast.Attribute):
             t = self.tagref(expr.func.value, f)
             if t in TAGVARS:
